@@ -191,8 +191,9 @@ class _Cross(Flow):
     def on_test(self, e, st):
         if isinstance(e, ast.Call) and self.prog.resolve_in(e.func, self.f) == FSM + '.is_pipeline_active':
             return (st | {'active'},), (st | {'inactive'},)
-        if isinstance(e, ast.Compare) and len(e.ops) == 1 and norm(e.left) == 'self.priority':
-            rhs = e.comparators[0]
+        if isinstance(e, ast.Compare) and len(e.ops) == 1 and 'self.priority' in (norm(e.left), norm(e.comparators[0])):
+            # either orientation: self.priority == X  /  X == self.priority
+            rhs = e.comparators[0] if norm(e.left) == 'self.priority' else e.left
             op = e.ops[0]
             if isinstance(rhs, ast.Constant) and rhs.value is None:
                 v = self.member is None
@@ -280,14 +281,36 @@ def rule2(ctx, rep):
             okp = False
             det = 'no polling loop'
             for lp in loops:
-                srcs = set()
-                for x in ast.walk(lp.test):
-                    if isinstance(x, (ast.Name, ast.Attribute)):
-                        srcs.add(prog.resolve_in(x, p))
-                    if isinstance(x, ast.Call):
-                        srcs.add(prog.resolve_in(x.func, p))
-                conj = isinstance(lp.test, ast.BoolOp) and isinstance(lp.test.op, ast.And) and len(lp.test.values) == 2
-                okp = source in srcs and f'{FSM}.waiting_on_{ev}' in srcs and conj
+                # the condition is evaluated as a boolean function of (S: the condition source is non-empty,
+                # W: waiting_on_<ev>() is true) and must be S and W, in whatever syntactic form
+                def ev2(e, S, W):
+                    if isinstance(e, ast.BoolOp):
+                        vals = [ev2(v, S, W) for v in e.values]
+                        if any(v is None for v in vals):
+                            return None
+                        return all(vals) if isinstance(e.op, ast.And) else any(vals)
+                    if isinstance(e, ast.UnaryOp) and isinstance(e.op, ast.Not):
+                        v = ev2(e.operand, S, W)
+                        return None if v is None else not v
+                    if isinstance(e, ast.Call) and isinstance(e.func, ast.Name) and e.func.id in ('len', 'bool') and e.args:
+                        return ev2(e.args[0], S, W)
+                    if isinstance(e, ast.Compare) and len(e.ops) == 1 and isinstance(e.comparators[0], ast.Constant) and e.comparators[0].value == 0:
+                        v = ev2(e.left, S, W)
+                        if v is None:
+                            return None
+                        return v if isinstance(e.ops[0], (ast.Gt, ast.NotEq)) else ((not v) if isinstance(e.ops[0], ast.Eq) else None)
+                    if isinstance(e, ast.Call):
+                        q = prog.resolve_in(e.func, p)
+                        if q == f'{FSM}.waiting_on_{ev}':
+                            return W
+                        if q == source:
+                            return S
+                    if isinstance(e, (ast.Name, ast.Attribute)) and prog.resolve_in(e, p) == source:
+                        return S
+                    return None
+
+                rows = {(S, W): ev2(lp.test, S, W) for S in (False, True) for W in (False, True)}
+                okp = all(rows[(S, W)] is not None and rows[(S, W)] == (S and W) for S, W in rows)
                 det = f'loop condition {norm(lp.test)}'
             r.check(okp, f'{p.qname}:condition', where(p), det, f'{p.qname} must poll while "{source} non-empty and waiting_on_{ev}()": {det}')
             # the condition is re-read on every iteration: no local of the loop test is a snapshot taken before the loop
